@@ -236,7 +236,7 @@ def minimise(mod, case, clause, sig, budget_s=60):
     """greedy shrinking: accept a candidate only if the same clause with the same signature fails"""
     def fails(c):
         try:
-            r = guarded_check(mod, c, clause.split(".")[0], 20)
+            r = guarded_check(mod, c, clause.split(".")[0], 30)
         except (Exception, RunTimeout):
             return False
         return any(v.clause == clause and v.sig == sig for v in r.violations)
@@ -284,7 +284,7 @@ def replay_file(pid, path):
         rp = json.load(f)
     if rp.get("history"):
         return rp, run_history(pid, rp["history"])
-    res = guarded_check(mod, rp["case"], pid, mod.TIERS["quick"].get("run_timeout", 30))
+    res = guarded_check(mod, rp["case"], pid, mod.TIERS["quick"].get("run_timeout", 120))
     return rp, [v.as_dict() for v in res.violations]
 
 
@@ -301,7 +301,7 @@ def run_history(pid, hist):
             if case is None:
                 continue
             case["_run"] = {"index": i, "seed": seed, "tier": hist["tier"], "base": hist["base"]}
-            res = guarded_check(mod, case, pid, mod.TIERS["quick"].get("run_timeout", 30))
+            res = guarded_check(mod, case, pid, mod.TIERS["quick"].get("run_timeout", 120))
             last = [v.as_dict() for v in res.violations]
         except (Exception, RunTimeout):
             last = []
@@ -366,7 +366,7 @@ def main_check(pid, tier, runs=None, budget=None, jobs=None, replay=None, eviden
     n_total = runs or cfg["runs"]
     budget = budget or cfg["budget"]
     jobs = jobs or int(os.environ.get("VERIF_JOBS", "0")) or min(16, os.cpu_count() or 4)
-    run_timeout = cfg.get("run_timeout", 30)
+    run_timeout = cfg.get("run_timeout", 120)
     deadline = t0 + budget
     ctx = multiprocessing.get_context("fork")
     agg = collections.Counter()
